@@ -1298,7 +1298,7 @@ impl<'a, E: quiver_core::effects::Effect> Compiler<'a, E> {
                 self.collect_receive_types(block, receive_types)?;
                 Ok(None)
             }
-            ast::Term::String(_, segments) => {
+            ast::Term::String(_, segments, _) => {
                 // A hole is a block-like expression that may contain a select.
                 for segment in segments {
                     if let ast::StrSegment::Hole(expression) = segment {
@@ -4031,7 +4031,7 @@ impl<'a, E: quiver_core::effects::Effect> Compiler<'a, E> {
                 // Block results have unknown provenance
                 Ok((ty, Provenance::Unknown))
             }
-            ast::Term::String(_, segments) => {
+            ast::Term::String(_, segments, _) => {
                 // A string literal produces a `Str`, replacing the flowing value — but, like a tuple,
                 // each interpolation hole receives a copy of that value (so `~` works inside a hole).
                 // The delimiter style is irrelevant to the compiled value.
